@@ -809,7 +809,7 @@ func TestVerifC14(t *testing.T) {
 	// unknown bridge, undecodable client and proxy polls, answers for unknown sessions - and then a complete
 	// rendezvous on the same broker: it must go through as if those requests had never been made
 	{
-		flood := r.N(2600, 9000)
+		flood := r.N(5600, 16000)
 		vj, _ := json.Marshal(map[string]string{"offer": "flood", "nat": "restricted", "fingerprint": "00000000000000000000000000000000000000A1"})
 		ansUnknown, _ := messages.EncodeAnswerRequest("ANSWER-X", "no-such-session")
 		bodies := []struct {
